@@ -85,6 +85,8 @@ def shard_result(eng: Any, **kw: Any) -> Dict[str, Any]:
         "solver_time": eng.solver_time,
         "exhausted": eng.exhausted,
         "inconclusive": sorted(set(eng.inconclusive))[:5],
+        "path_exceptions": getattr(eng, "n_exceptions", 0),
+        "path_exception_samples": list(getattr(eng, "exceptions", [])),
     }
     d.update(kw)
     return d
@@ -97,6 +99,9 @@ def fold(rep: Any, name: str, results: List[Dict[str, Any]]) -> List[Dict[str, A
         if "crash" in r:
             rep.harness_error(f"{name} shard {r.get('shard')!r} crashed: {r['crash']}")
             continue
+        if r.get("path_exceptions"):
+            # paths that died in an exception the harness did not account for were not checked: no verdict
+            rep.harness_error(f"{name} shard {r.get('shard')!r}: {r['path_exceptions']} path(s) ended in an unexpected exception, e.g. {r['path_exception_samples'][:2]}")
         ok = r["exhausted"] and not r["inconclusive"]
         rep.add_counts(name, r["paths"], r["queries"], r["solver_time"],
                        status="discharged" if ok else "inconclusive", reached=r.get("reached", r["paths"]))
